@@ -226,7 +226,12 @@ stream will still return the entry. -/
 theorem C16_covered (s : St) (h : Reach s) (n : Nat) (hp : pulled (s.pc n) = true) (hm : n ∈ s.todo) : Covered s n :=
   (reach_inv s h).cov n hp hm
 
-/-- **A scan ends only when it has returned every entry it covers**: `closedir` needs `rem = []`. -/
+/-- ACCEPTOR GUARD, not a proved consequence: this restates the guard of `Trigger.accept` for `dEnd` ("readdir returns
+NULL only after it has returned every entry the stream covers": `closedir` needs `rem = []`).  It is an ASSUMPTION of
+the model that the invariant rests on; its support is the trace replay — every enumerated interleaving of the real
+programs must be accepted by `Trigger.accept` (driver: DISAGREE on a rejected event).  It additionally assumes that
+readdir does not skip entries while the daemon itself unlinks todo/ entries in the middle of the scan (true of
+harness/sim.c, which is the only file system it is exercised on). -/
 theorem C16_scan_complete (s s' : St) (h : accept s .dEnd = some s') : s.d = .scanning [] := by
   simp only [accept] at h
   split at h
@@ -236,9 +241,11 @@ theorem C16_scan_complete (s s' : St) (h : accept s .dEnd = some s') : s.d = .sc
     · cases h
   · cases h
 
-/-- **Order in the daemon**: `opendir` is accepted only right after the FIFO was reopened
-(`trigger_set` precedes `opendir`), and **order in the injector**: the trigger is opened only after the
-link. These are the two facts the invariant rests on; the mutants that swap them are rejected. -/
+/-- ACCEPTOR GUARDS, not proved consequences: this restates two guards of `Trigger.accept`.  **Order in the daemon**:
+`opendir` is accepted only right after the FIFO was reopened (`trigger_set` precedes `opendir`); **order in the
+injector**: the trigger is opened only after the link.  These are the two ASSUMPTIONS about the programs the invariant
+rests on; they are validated by replaying every enumerated trace of the real programs through the acceptor (a program
+that swaps them produces a rejected event: DISAGREE, and the oracle then finds the lost wake-up). -/
 theorem C16_order (s s' : St) :
     (accept s .dOpendir = some s' → s.d = .reopened) ∧ (∀ n ok, accept s (.iOpen n ok) = some s' → s.pc n = .linked) := by
   constructor
@@ -259,7 +266,11 @@ theorem reach_scanInv (s : St) (h : Reach s) : ScanInv s := by
 which entry `n` is unprocessed, every run of the daemon *on its own* — no injector step, no 25-minute
 timer, whatever order readdir returns the entries in and whether or not it reports entries linked after
 opendir — that is `2·|todo| + 3` steps long has processed `n`.  (The bound is attained: `n` missing from the
-stream of a scan in progress costs the rest of that scan, closedir, close, open, opendir and a second scan.) -/
+stream of a scan in progress costs the rest of that scan, closedir, close, open, opendir and a second scan.)
+Scope: this is a statement about daemon-only suffixes (`drun`: no injector step in between).  With injector steps
+interleaved the measure can grow (todo grows, `dSeeNew`), so "within 2·|todo|+3 own steps counted across an interleaved
+run" is NOT claimed; the driver's budget is renewed by every injector step.  "Processed" = the name was returned by
+readdir and handed to todo_do (`dRead`), see `C16_rescan_backstop` for what lies beyond. -/
 theorem C16_bounded (s s' : St) (hi : ScanInv s) (n : Nat) (hm : n ∈ s.todo) (boot : Bool) (evs : List Ev)
     (hrun : drun boot s evs = some s') (hlen : 2 * s.todo.length + 3 ≤ evs.length) : n ∉ s'.todo := by
   intro hn'
@@ -493,6 +504,29 @@ theorem C16_roots_of_heap (pq : Nq.Sched.PQ) (h : Nq.Sched.Heap pq) :
     obtain ⟨e, he, rfl⟩ := List.mem_map.1 ht
     rw [hm0]
     exact Nq.Lemmas.Sched.heap_root_le_mem pq h e he
+
+open Nq.SelPrep in
+/-- **Rescan backstop** (complement for what the trigger model leaves out).  `Trigger.Ev.dRead n` stands for "readdir
+returned the name `n` and handed it to todo_do"; the failure paths of todo_do — `opendir` failing after `trigger_set()`
+has consumed the pull, and every `return`/`goto fail` after readdir, which leaves todo/n in place with no wake-up
+pending — are outside the property's quantifier (no faults) and outside `Trigger`.  What the code guarantees for them is
+the timer: as long as exit was not requested, select is never asked to sleep beyond `nexttodorun` (plus the fuzz), and
+the first loop body that runs at or after `nexttodorun` gets past todo_do's guard without any pull.  `nexttodorun` is
+only ever set to `recent + SLEEP_TODO` at the start of a scan, so such an entry waits at most SLEEP_TODO (+ fuzz) after
+the start of the last successful scan — never for ever. -/
+theorem C16_rescan_backstop (s : Snap) (h0 : 0 ≤ s.recent) (he : s.exitasap = false) :
+    (timeout s = 0 ∨ s.recent + timeout s - SLEEP_FUZZ ≤ s.nexttodorun) ∧
+    (∀ r' ready, s.nexttodorun ≤ r' → todoDoActs { s with recent := r' } ready = true) := by
+  refine ⟨?_, ?_⟩
+  · obtain ⟨h1, h2⟩ := C16_no_spin s h0
+    by_cases hp : Pending s
+    · exact Or.inl (h1.2 hp)
+    · obtain ⟨_, hto, hle, _, _, _⟩ := h2 hp
+      have hm : s.nexttodorun ∈ dueTimes s := (mem_dueTimes s _).2 (Or.inr (Or.inr (Or.inr (Or.inl ⟨he, rfl⟩))))
+      have := hle _ hm
+      exact Or.inr (by omega)
+  · intro r' ready hr
+    simp [todoDoActs, he, hr]
 
 open Nq.SelPrep in
 /-- pending work passes the guards of the loop body, whatever descriptors are ready and however far the clock
